@@ -193,7 +193,7 @@ impl Prop for C05x {
     fn cases(&self, tier: Tier) -> u64 {
         match tier {
             Tier::Quick => 640,
-            Tier::Thorough => 4_800,
+            Tier::Thorough => 1_600,
         }
     }
 
@@ -207,7 +207,7 @@ impl Prop for C05x {
         let steps: Vec<i64> = if block_acct || bf > 0.0 { vec![0, 1, 1_000_000, -5] } else { vec![1, -5] };
         let (depth, budget) = match cx.tier {
             Tier::Quick => (3usize, 300_000u64),
-            Tier::Thorough => (5usize, 30_000_000u64),
+            Tier::Thorough => (4usize, 5_000_000u64),
         };
         out.evaluations += 1;
         let handle = SharedChoice::default();
